@@ -197,6 +197,11 @@ func cmdCheck(args []string) int {
 	os.MkdirAll(filepath.Join(vdir, "replays"), 0o755)
 	base := loadBaseline()
 	known := loadKnown()
+	if old, _ := filepath.Glob(filepath.Join(vdir, "replays", prop+"-*.txt")); len(old) > 0 {
+		for _, f := range old {
+			os.Remove(f)
+		}
+	}
 
 	w, err := loadWorld(*repo, true)
 	var run *checkRun
@@ -205,6 +210,7 @@ func cmdCheck(args []string) int {
 	} else {
 		run = gather(w, prop)
 		dischargeAll(run.items, timeoutMs, 16)
+		run.items = expandFailed(run.items, timeoutMs)
 	}
 	run.tier, run.repo, run.seed = *tier, *repo, seed
 
@@ -393,6 +399,24 @@ func cmdCheck(args []string) int {
 	}
 	data, _ := json.MarshalIndent(ev, "", " ")
 	os.WriteFile(filepath.Join(vdir, "evidence", prop+".json"), data, 0o644)
+	if os.Getenv("VERIF_DEBUG") != "" {
+		byFn := map[string]float64{}
+		cnt := map[string]int{}
+		for _, it := range run.items {
+			byFn[it.o.Fn] += it.o.Seconds
+			cnt[it.o.Fn]++
+		}
+		var fns []string
+		for f := range byFn {
+			fns = append(fns, f)
+		}
+		sort.Slice(fns, func(i, j int) bool { return byFn[fns[i]] > byFn[fns[j]] })
+		for i, f := range fns {
+			if i < 15 {
+				fmt.Fprintf(os.Stderr, "  %8.1fs %5d  %s\n", byFn[f], cnt[f], f)
+			}
+		}
+	}
 	fmt.Printf("%s: %d obligations, %d discharged, %d known findings, %d violations, %d functions, %.1fs\n", prop, nObl, discharged, len(knownLines), violations, len(run.funcs), time.Since(t0).Seconds())
 	if nObl == 0 && violations == 0 {
 		fmt.Println("no obligations generated for this property: undecided")
@@ -436,4 +460,23 @@ func (w *World) extraObligations(run *checkRun) {}
 // tryReplay attempts to reproduce a counterexample on the real code.
 func (w *World) tryReplay(run *checkRun, o *Obligation) (bool, string) {
 	return false, "no lifter available for this obligation kind yet"
+}
+
+// expandFailed replaces failed coarse obligations by their finer expansion.
+func expandFailed(items []workItem, timeoutMs int) []workItem {
+	var extra []workItem
+	var out []workItem
+	for _, it := range items {
+		if it.o.Expand != nil && !oblOK(it.o) {
+			for _, e := range it.o.Expand() {
+				extra = append(extra, workItem{it.fr, e})
+			}
+			continue
+		}
+		out = append(out, it)
+	}
+	if len(extra) > 0 {
+		dischargeAll(extra, timeoutMs, 16)
+	}
+	return append(out, extra...)
 }
